@@ -65,6 +65,7 @@ func cellValue(p *Prog, v ssa.Value) ssa.Value {
 
 func runC19(c *Ctx) {
 	p := c.P
+	noRetainedWriteArg(c, p, "R1")
 	cl := p.Func("obfs4proxy:copyLoop")
 	ob := c.Obl("R1", "obfs4proxy:copyLoop#copiers", "the relay starts exactly two copier goroutines, outside any loop, one per direction: io.Copy(b, a) and io.Copy(a, b)")
 	if cl == nil {
@@ -265,52 +266,152 @@ func c19Relay(c *Ctx, p *Prog, cl *ssa.Function, ob *Obligation) {
 }
 
 func c19Handlers(c *Ctx, p *Prog) {
-	const idStart = "(*$M/obfs4proxy.termMonitor).onHandlerStart"
-	const idFinish = "(*$M/obfs4proxy.termMonitor).onHandlerFinish"
-	sites := p.Sites(idStart)
-	ob := c.Obl("R2", "handlers#count", "anti-vacuity: the client and server connection handlers report their start")
-	if len(sites) < 2 {
-		ob.Undecide("found %d onHandlerStart call sites, expected 2", len(sites))
-	} else {
-		ob.Hold("%d", len(sites))
-	}
-	sort.Slice(sites, func(i, j int) bool { return p.FuncKey(sites[i].Caller) < p.FuncKey(sites[j].Caller) })
-	for _, cs := range sites {
-		fn := cs.Caller
-		c.Touch(p.FuncKey(fn))
-		ob := c.Obl("R2", p.FuncKey(fn)+"#start-finish-paired", "a handler that reported its start defers the matching finish immediately: the count returns to zero on every exit, including early returns and panics").At(p.InstrPos(cs.Instr))
-		var df *ssa.Defer
+	const tMon = "obfs4proxy.termMonitor"
+	// "delta functions": module functions (the onHandlerStart / onHandlerFinish helpers, or a deferred
+	// function literal) whose whole effect is one unconditional send of +1 / -1 on handlerChan
+	deltaOf := func(fn *ssa.Function) (int64, bool) {
+		if fn == nil || len(fn.Blocks) == 0 {
+			return 0, false
+		}
+		n, val, ok := 0, int64(0), true
 		allInstrs(fn, func(in ssa.Instruction) {
-			if d, ok := in.(*ssa.Defer); ok && p.CalleeID(&d.Call) == M(idFinish) {
-				df = d
+			switch x := in.(type) {
+			case *ssa.Send:
+				n++
+				v, isK := intConst(x.X)
+				if !isK || !isFieldLoad(x.Chan, tMon, "handlerChan") || x.Block() != fn.Blocks[0] {
+					ok = false
+				}
+				val = v
+			case ssa.CallInstruction:
+				ok = false
 			}
 		})
+		return val, ok && n == 1 && (val == 1 || val == -1)
+	}
+	delta := map[*ssa.Function]int64{}
+	for _, fn := range p.Funcs {
+		if fn.Pkg != nil && relPkg(fn.Pkg.Pkg.Path()) == "obfs4proxy" {
+			if v, ok := deltaOf(fn); ok {
+				delta[fn] = v
+			}
+			for _, an := range fn.AnonFuncs {
+				if v, ok := deltaOf(an); ok {
+					delta[an] = v
+				}
+			}
+		}
+	}
+	calleeOf := func(cm *ssa.CallCommon) *ssa.Function {
+		if sc := cm.StaticCallee(); sc != nil {
+			return sc
+		}
+		if mc, ok := cm.Value.(*ssa.MakeClosure); ok {
+			fn, _ := mc.Fn.(*ssa.Function)
+			return fn
+		}
+		return nil
+	}
+	// events per function: starts (+1 reported now), deferred finishes (-1 at exit), direct finishes
+	type events struct {
+		starts, directFin []ssa.Instruction
+		deferred         []*ssa.Defer
+	}
+	ev := map[*ssa.Function]*events{}
+	get := func(fn *ssa.Function) *events {
+		if ev[fn] == nil {
+			ev[fn] = &events{}
+		}
+		return ev[fn]
+	}
+	for _, fn := range p.Funcs {
+		if fn.Pkg == nil || relPkg(fn.Pkg.Pkg.Path()) != "obfs4proxy" {
+			continue
+		}
+		if _, isDelta := delta[fn]; isDelta {
+			continue
+		}
+		allInstrs(fn, func(in ssa.Instruction) {
+			switch x := in.(type) {
+			case *ssa.Send:
+				if isFieldLoad(x.Chan, tMon, "handlerChan") {
+					if v, ok := intConst(x.X); ok && v == 1 {
+						get(fn).starts = append(get(fn).starts, x)
+					} else {
+						get(fn).directFin = append(get(fn).directFin, x)
+					}
+				}
+			case *ssa.Defer:
+				if d, ok := delta[calleeOf(&x.Call)]; ok {
+					if d == -1 {
+						get(fn).deferred = append(get(fn).deferred, x)
+					} else {
+						get(fn).directFin = append(get(fn).directFin, x) // a deferred START makes no sense
+					}
+				}
+			case *ssa.Call:
+				if d, ok := delta[calleeOf(x.Common())]; ok {
+					if d == 1 {
+						get(fn).starts = append(get(fn).starts, x)
+					} else {
+						get(fn).directFin = append(get(fn).directFin, x)
+					}
+				}
+			case *ssa.Go:
+				if _, ok := delta[calleeOf(&x.Call)]; ok {
+					get(fn).directFin = append(get(fn).directFin, x)
+				}
+			}
+		})
+	}
+	var fns []*ssa.Function
+	for fn, e := range ev {
+		if len(e.starts) > 0 || len(e.deferred) > 0 || len(e.directFin) > 0 {
+			fns = append(fns, fn)
+		}
+	}
+	sort.Slice(fns, func(i, j int) bool { return p.FuncKey(fns[i]) < p.FuncKey(fns[j]) })
+	nStart := 0
+	for _, fn := range fns {
+		nStart += len(ev[fn].starts)
+	}
+	ob := c.Obl("R2", "handlers#count", "anti-vacuity: the client and server connection handlers report their start")
+	if nStart < 2 {
+		ob.Undecide("found %d handler-start events (+1 on handlerChan), expected 2", nStart)
+	} else {
+		ob.Hold("%d", nStart)
+	}
+	for _, fn := range fns {
+		e := ev[fn]
+		c.Touch(p.FuncKey(fn))
+		ob := c.Obl("R2", p.FuncKey(fn)+"#start-finish-paired", "a handler that reported its start defers the matching finish immediately: the count returns to zero on every exit, including early returns and panics")
 		switch {
-		case df == nil:
-			ob.Violate("onHandlerFinish is not deferred in %s: an early return leaves the handler count raised and graceful shutdown never completes", p.FuncKey(fn))
-		case !instrDominates(cs.Instr, df):
-			ob.Violate("the finish is deferred before the start was reported")
+		case len(e.starts) != 1:
+			ob.Violate("%d start events in %s (expected exactly one per handler)", len(e.starts), p.FuncKey(fn))
+		case len(e.deferred) == 0:
+			ob.At(p.InstrPos(e.starts[0])).Violate("no finish (-1) is deferred in %s: an early return leaves the handler count raised and graceful shutdown never completes", p.FuncKey(fn))
+		case len(e.deferred) > 1:
+			ob.Violate("%d deferred finishes: the handler would be counted down more than once", len(e.deferred))
+		case !instrDominates(e.starts[0], e.deferred[0]):
+			ob.At(p.InstrPos(e.starts[0])).Violate("the finish is deferred before the start was reported")
 		default:
-			// no return between start and the defer
+			st, df := e.starts[0], e.deferred[0]
 			bad := ""
 			for _, r := range returnsOf(fn) {
-				if canReachWithout(cs.Instr, r, map[ssa.Instruction]bool{df: true}) {
+				if canReachWithout(st, r, map[ssa.Instruction]bool{df: true}) {
 					bad = "return at " + p.InstrPos(r) + " is reachable after the start without the finish being deferred"
 				}
 			}
-			// finish only via defer (no direct double count)
-			for _, call := range p.CallsIn(fn, idFinish) {
-				if _, isD := call.(*ssa.Defer); !isD {
-					bad = "onHandlerFinish is also called directly at " + p.InstrPos(call) + ": the handler would be counted down twice"
-				}
+			for _, x := range e.directFin {
+				bad = "a finish is also reported directly at " + p.InstrPos(x) + ": the handler would be counted down twice"
 			}
-			if blockOnCycle(cs.Instr.Block()) {
-				bad = "onHandlerStart is inside a loop"
+			if blockOnCycle(st.Block()) {
+				bad = "the start is reported inside a loop"
 			}
 			if bad != "" {
-				ob.Violate("%s", bad)
+				ob.At(p.InstrPos(st)).Violate("%s", bad)
 			} else {
-				ob.HoldNT("defer onHandlerFinish right after onHandlerStart")
+				ob.At(p.InstrPos(st)).HoldNT("defer finish right after start")
 			}
 		}
 	}
@@ -322,32 +423,43 @@ func c19Handlers(c *Ctx, p *Prog) {
 		ob := c.Obl("R2", k.fn+"#delta", fmt.Sprintf("the event carries %+d on the monitor's handler channel, unconditionally", k.val))
 		fn := p.Func(k.fn)
 		if fn == nil {
-			ob.Undecide("not found")
+			if nStart >= 2 {
+				ob.HoldNT("the helper does not exist in this tree; the %d start events and their deferred finishes are sends of +1 / -1 written at the handlers themselves and are judged there", nStart)
+			} else {
+				ob.Undecide("not found")
+			}
 			continue
 		}
-		n := 0
-		bad := ""
-		allInstrs(fn, func(in ssa.Instruction) {
-			if s, ok := in.(*ssa.Send); ok {
-				n++
-				if v, ok := intConst(s.X); !ok || v != k.val {
-					bad = "sends a value other than the expected delta"
-				}
-				if !isFieldLoad(s.Chan, "obfs4proxy.termMonitor", "handlerChan") {
-					bad = "does not send on handlerChan"
-				}
-				if s.Block() != fn.Blocks[0] {
-					bad = "the send is conditional"
-				}
-			}
-		})
-		if n != 1 && bad == "" {
-			bad = fmt.Sprintf("%d sends", n)
-		}
-		if bad != "" {
-			ob.Violate("%s", bad)
+		if d, ok := delta[fn]; !ok || d != k.val {
+			ob.Violate("%s is not exactly one unconditional send of %+d on handlerChan", k.fn, k.val)
 		} else {
 			ob.Hold("%+d", k.val)
+		}
+	}
+	// a start must have been COUNTED before the handler proceeds (and before a shutdown request can look
+	// at the count): the event channel is a rendezvous, not a queue
+	ob = c.Obl("R2", "obfs4proxy.termMonitor.handlerChan#unbuffered", "the handler event channel is unbuffered: onHandlerStart returns only after the monitor has taken the +1, so a graceful shutdown never sees a stale zero while a started handler is running")
+	{
+		badC := ""
+		nC := 0
+		for _, st := range p.Stores(tMon, "handlerChan") {
+			nC++
+			mc, ok := unspill(st.Val).(*ssa.MakeChan)
+			if !ok {
+				badC = "handlerChan is assigned something other than make(chan int) at " + p.InstrPos(st.Instr)
+				continue
+			}
+			if k, isK := intConst(mc.Size); !isK || k != 0 {
+				badC = "handlerChan is created with a buffer (" + p.valString(mc.Size) + ") at " + p.InstrPos(mc) + ": events queue up uncounted"
+			}
+		}
+		if nC == 0 {
+			badC = "handlerChan is never created"
+		}
+		if badC != "" {
+			ob.Violate("%s", badC)
+		} else {
+			ob.HoldNT("%d creation site(s), make(chan int)", nC)
 		}
 	}
 	ob = c.Obl("R2", "obfs4proxy.termMonitor.numHandlers#writers", "numHandlers is written only by the monitor loop (single goroutine), by adding the received delta")
